@@ -98,6 +98,11 @@ def render_decorated(rec):
                         break
             new.append(t)
         texts = new
+    elif place in ("comment-every-line", "blank-every-line"):
+        ins = f"# {s}" if place == "comment-every-line" else ""
+        texts = [x for t in texts for x in (t, ins)]
+    elif place == "comment-every-assignment":
+        texts = [x for j, t in enumerate(texts) for x in ((t, f"# {s}") if j in assigns else (t,))]
     elif place == "unit-annotation":
         texts = [t + " # mV" if j in assigns else t for j, t in enumerate(texts)]
     text = eol.join(texts)
@@ -164,5 +169,7 @@ def _worker(rec):
 
 
 def replay(recs, nproc=16):
+    from . import gx  # noqa: F401  imported once here: the forked children inherit it instead of importing it each
+    import pint  # noqa: F401
     with cf.ThreadPoolExecutor(max_workers=nproc) as ex:
         return list(ex.map(_worker, recs))
